@@ -174,6 +174,10 @@ def _value_ctor(it, args, kw):
     return SObj(VR.Value, result=args[0])
 
 
+if hasattr(VR, "_declared_vector_type"):
+    I.register_inline(VR._declared_vector_type)  # helper of CaseWhen.write / SelectWith.write: part of the writers
+
+
 for root_kind in (Unsigned, Signed, BitVector):
     for view_kind in (Unsigned, Signed, BitVector):
         for sliced in (False, True):
@@ -183,6 +187,62 @@ for root_kind in (Unsigned, Signed, BitVector):
             c.native = False
             c.interp_flags = {"class_call_models": {VR.Value: _value_ctor}, "opaque_texts_distinct": True}
             con.cases.append(c)
+
+
+# the selector is an ELEMENT OF AN ARRAY of vectors (`match arr[1]:` / select_with(arr[1], ...)): the root object is the array, the
+# declared type of the written text `arr(1)` is the array's ELEMENT type -- the selector must be written in that type, the choices
+# are formatted against it (until fix the root "is neither Unsigned nor Signed" rule wrote std_logic_vector(arr(1)) with
+# unsigned'(...) choices)
+from cohdl import Array as _Array  # noqa: E402
+from cohdl._core._type_qualifier import Offset as _ElemOffset  # noqa: E402
+
+
+def array_case_shape(elem_kind):
+    def make(env):
+        root = FC.tq(_Array[elem_kind[3], 4]())
+        res = FC.tq(vec(elem_kind, 3, env["sel_bits"]), root, [_ElemOffset(1, [])])
+        cond = SObj(VR.Value, result=res)
+        br = [(SObj(VR.Constant, result=i), SObj(VR.CodeBlock, _stmts=[], __empty__=False)) for i in range(2)]
+        return SObj(VR.CaseWhen, _cond=cond, _branches=br, _others=None)
+
+    return Built(["sel_bits"], make, lambda asg: "None", lambda asg: None, assume=lambda env: sym.And(env["sel_bits"] >= 0, env["sel_bits"] < 8))
+
+
+for elem_kind in (Unsigned, Signed, BitVector):
+    c = Case(f"selector:element-of-Array[{elem_kind.__name__}]", [array_case_shape(elem_kind), SCOPE], typed_case_spec(elem_kind))
+    c.native = False
+    c.interp_flags = {"class_call_models": {VR.Value: _value_ctor}, "opaque_texts_distinct": True}
+    c.custom_replay = "contracts.c06_stmts.replay_array_selector"
+    con.cases.append(c)
+
+_ARRAY_SELECTOR_DESIGN = '''
+import re
+import cohdl
+from cohdl import Array, Bit, Port, Signal, Unsigned, std, select_with
+class SelArrayElem(cohdl.Entity):
+    clk = Port.input(Bit)
+    a = Port.input(Unsigned[3])
+    o_conc = Port.output(Unsigned[3])
+    o_seq = Port.output(Unsigned[3])
+    def architecture(self):
+        arr = Signal[Array[Unsigned[3], 4]](name="arr")
+        @std.concurrent
+        def logic():
+            self.o_conc <<= select_with(arr[1], {0: self.a, 1: arr[2]}, default=arr[0])
+        @std.sequential(std.Clock(self.clk))
+        def proc():
+            self.o_seq <<= select_with(arr[1], {0: self.a, 1: arr[2]}, default=arr[0])
+t = std.VhdlCompiler.to_string(SelArrayElem)
+print("WITH", re.search(r"with (.*?) select", t).group(1), "| CASE", re.search(r"case (.*?) is", t).group(1), "| CHOICE", re.search(r"when (\\S+)", t).group(1))
+'''
+
+
+def replay_array_selector(payload):
+    from contracts.c06_extra import _run_design
+
+    rc, out = _run_design(_ARRAY_SELECTOR_DESIGN)
+    return {"reproduced": rc == 0 and "std_logic_vector(arr" in out and "unsigned'" in out,
+            "detail": "select_with / case on an element of an array of Unsigned: selector and choices must have one type: " + out[-120:]}
 
 
 # ---- SelectWith -----------------------------------------------------------------------------------
@@ -471,3 +531,44 @@ for cur in ("none", "all", "list"):
             c = Case(f"{cur}+{new}@{depth}", [sens_shape(cur, depth), arg], sens_spec(cur, new))
             c.native = False
             con.cases.append(c)
+
+
+# SelectWith with a vector-typed selector: written in the declared type of its root -- for an element of an array, the element type
+def select_typed_shape(elem_kind, array_root):
+    def make(env):
+        if array_root:
+            root = FC.tq(_Array[elem_kind[3], 4]())
+            res = FC.tq(vec(elem_kind, 3, env["sel_bits"]), root, [_ElemOffset(1, [])])
+        else:
+            res = FC.tq(vec(elem_kind, 3, env["sel_bits"]))
+        arg = SObj(VR.Value, result=res)
+        br = [(SObj(VR.Constant, result=i), SObj(VR.Value, result=None, f_tag=f"value{i}")) for i in range(2)]
+        return SObj(VR.SelectWith, _arg=arg, _branches=br, _default=SObj(VR.Value, result=None, f_tag="default"), _target=SObj(VR.Target, result=Opaque("type of the target")))
+
+    return Built(["sel_bits"], make, lambda asg: "None", lambda asg: None, assume=lambda env: sym.And(env["sel_bits"] >= 0, env["sel_bits"] < 8))
+
+
+def select_typed_spec(elem_kind):
+    def spec(sx, self, scope):
+        def holds(res):
+            texts = [t for _, t in flat(res)]
+            head = texts[0]
+            if not (isinstance(head, SFmt) and head.parts[0] == "with " and isinstance(head.parts[1], Opaque) and head.parts[1].tag == "text-of"):
+                return False
+            sel = head.parts[1].deps[0]
+            r = sel.fields["result"] if isinstance(sel, SObj) and sel.kind is VR.Value else None
+            prim = r.fields.get("_value") if isinstance(r, SObj) else None
+            return isinstance(prim, SObj) and prim.kind is elem_kind  # the selector is written as a value of the declared (element) type
+
+        return C.Pred(holds, "with <selector in the declared type of its root / of the array element> select")
+
+    return spec
+
+
+for elem_kind in (Unsigned, Signed, BitVector):
+    for array_root in (False, True):
+        c = Case(f"selector:{'element-of-Array[' + elem_kind.__name__ + ']' if array_root else elem_kind.__name__}", [select_typed_shape(elem_kind, array_root), SCOPE], select_typed_spec(elem_kind))
+        c.native = False
+        c.interp_flags = {"class_call_models": {VR.Value: _value_ctor}, "opaque_texts_distinct": True}
+        c.custom_replay = "contracts.c06_stmts.replay_array_selector"
+        C.CONTRACTS[VRM + "SelectWith.write"].cases.append(c)
